@@ -31,6 +31,10 @@ def render(item, name):
     outer = attrs_text(item["attrs"])
     ms = item["members"]
     derive = "#[derive(serde::Serialize, Default, attrdump::AttrDump)]\n"
+    if k == "named_struct_via_macro":
+        inner = render(dict(item, kind="named_struct"), name)
+        return ("macro_rules! model {\n    ($(#[$outer:meta])* pub struct $name:ident { $($(#[$fattr:meta])* pub $f:ident : $t:ty),* $(,)? }) => {\n"
+                "        $(#[$outer])* pub struct $name { $($(#[$fattr])* pub $f : $t),* }\n    };\n}\nmodel! {\n" + inner + "}\n")
     if k == "named_struct":
         body = "".join(attrs_text(m["attrs"], "    ") + f"    pub {m['name']}: u32,\n" for m in ms)
         return f"{outer}{derive}pub struct {name} {{\n{body}}}\n"
@@ -209,6 +213,10 @@ def run(chk):
                            "same_attrs": a is not None and b is not None and a[2] == b[2], "attrs": [a[2] if a else "<did not compile>", b[2] if b else "<did not compile>"]})
     chk.extra["rustc_invocations"] = stats["compiles"]
     chk.extra["compile_errors_sample"] = stats.get("errors", [])[:3]
+    dead = [e["case"] for e in events if not e["twin_compiles"] and not e["annotated_compiles"]]
+    if dead:
+        # neither text compiles: the rendering of the harness is at fault, the comparison would be vacuous
+        raise ToolError(f"{len(dead)} C19 items compile neither annotated nor stripped (first: {cases[dead[0]]['case']}): " + "\n".join(stats.get("errors", [])[:1]))
     if all(not e["twin_compiles"] for e in events):
         raise ToolError("no twin compiled: harness/crate problem\n" + "\n".join(stats.get("errors", [])[:2]))
     ok, matched, tres = common.trace_validate("Trace_C19", events, timeout=300)
@@ -221,7 +229,7 @@ def run(chk):
         at = sorted(c["at"])
         posnames = {"named_struct": {1: "field", 2: "field", 3: "field"}, "tuple_struct": {1: "tuple-field"}, "enum": {1: "variant", 2: "variant", 3: "tuple-variant-field", 4: "struct-variant-field"},
                     "union": {1: "union-field", 2: "union-field"}, "generic_struct": {1: "field", 2: "field"},
-                    "struct_len_if": {1: "field", 2: "field"}, "struct_len_block": {1: "field", 2: "field"}, "struct_len_index": {1: "field", 2: "field"}}.get(c["item"]["kind"], {})
+                    "named_struct_via_macro": {1: "field", 2: "field", 3: "field"}, "struct_len_if": {1: "field", 2: "field"}, "struct_len_block": {1: "field", 2: "field"}, "struct_len_index": {1: "field", 2: "field"}}.get(c["item"]["kind"], {})
         where = "+".join(sorted({posnames.get(p, "?") for p in at})) or "item-only"
         if c["item"]["kind"] == "enum" and 2 in at and 3 in at:
             where += "(same-variant)"
